@@ -322,11 +322,17 @@ type formatVerb struct {
 	Width    int
 }
 
+// formatMaxWidthPrec is the largest width or precision that a formatting
+// verb may ask for. (Go's fmt package also refuses widths and precisions
+// beyond about a million.)
+const formatMaxWidthPrec = 1000000
+
 // formatArgNumAppendDigit is called by formatFSM (generated by format_fsm.rl)
-// for each decimal digit of an explicit argument number. It returns the number
-// that results from appending the digit to n, saturating at the largest int
-// instead of overflowing: a number that large can't refer to any argument, and
-// must not wrap around to one that does (or to a negative index).
+// for each decimal digit of an explicit argument number, width or precision.
+// It returns the number that results from appending the digit to n, saturating
+// at the largest int instead of overflowing: a number that large can't refer
+// to any argument (and is beyond any supported width or precision), and must
+// not wrap around to one that is acceptable (or to a negative number).
 func formatArgNumAppendDigit(n int, digit byte) int {
 	const maxInt = int(^uint(0) >> 1)
 	if n > (maxInt-9)/10 {
@@ -347,6 +353,13 @@ func formatAppend(verb *formatVerb, buf *bytes.Buffer, args []cty.Value) error {
 		)
 	}
 	arg := args[argIdx]
+
+	if verb.HasWidth && verb.Width > formatMaxWidthPrec {
+		return fmt.Errorf("unsupported width for %q at %d: must not be greater than %d", verb.Raw, verb.Offset, formatMaxWidthPrec)
+	}
+	if verb.HasPrec && verb.Prec > formatMaxWidthPrec {
+		return fmt.Errorf("unsupported precision for %q at %d: must not be greater than %d", verb.Raw, verb.Offset, formatMaxWidthPrec)
+	}
 
 	if verb.Mode != 'v' && arg.IsNull() {
 		return fmt.Errorf("unsupported value for %q at %d: null value cannot be formatted", verb.Raw, verb.Offset)
